@@ -3,6 +3,7 @@ Coq data under coq/gen (tie T1).  Each reflector fails closed: an exception mean
 from __future__ import annotations
 
 import keyword
+from pathlib import Path
 import re
 import traceback
 
@@ -467,7 +468,50 @@ def determinism_tables():
             caches.append(f"imports.Import.{name}")
     # directory inputs
     src = inspect.getsource(pbase.Parser.iter_source.fget if isinstance(pbase.Parser.iter_source, property) else pbase.Parser.iter_source)
-    dir_sorted = "sorted(" in src and "rglob" in src
+    # the listing is sorted with a key that is injective on paths: a tuple ending in the path itself (ties on the file
+    # name are broken by the path, so the parse order never follows the order in which the OS lists a directory)
+    dir_sorted = False
+    for node in ast.walk(ast.parse(__import__("textwrap").dedent(src))):
+        if isinstance(node, ast.Call) and getattr(node.func, "id", None) == "sorted" and "rglob" in ast.unparse(node.args[0]):
+            key = next((k.value for k in node.keywords if k.arg == "key"), None)
+            if key is None:
+                dir_sorted = True   # Path objects compare by their parts
+            elif isinstance(key, ast.Lambda) and isinstance(key.body, ast.Tuple) and key.body.elts:
+                arg = key.args.args[0].arg
+                dir_sorted = ast.unparse(key.body.elts[-1]) in (arg, f"{arg}.as_posix()", f"str({arg})", f"{arg}.parts")
+    # package-wide: a for loop / comprehension that iterates a set built in the same function (set literal, set(), set algebra on
+    # key views) without sorted().  Sites where the order provably cannot reach the output are listed with the reason.
+    harmless = {("parser/base.py", "__postprocess_result_modules", "folders"): "fills a dict that generate() emits through sorted(results.items())"}
+    pkg = Path(d.__file__).parent
+
+    def setish(e, names=()):
+        if isinstance(e, (ast.Set, ast.SetComp)) or (isinstance(e, ast.Name) and e.id in names):
+            return True
+        if isinstance(e, ast.Call) and isinstance(e.func, ast.Name) and e.func.id in ("set", "frozenset"):
+            return True
+        if isinstance(e, ast.Call) and isinstance(e.func, ast.Attribute) and e.func.attr in ("union", "intersection", "difference", "symmetric_difference"):
+            return True
+        if isinstance(e, ast.BinOp) and isinstance(e.op, (ast.Sub, ast.BitAnd, ast.BitOr, ast.BitXor)):
+            keysish = lambda x: (isinstance(x, ast.Call) and isinstance(x.func, ast.Attribute) and x.func.attr in ("keys", "items")) or setish(x, names)
+            return keysish(e.left) or keysish(e.right)
+        return False
+
+    for f in sorted(pkg.rglob("*.py")):
+        rel = f.relative_to(pkg).as_posix()
+        for fn in ast.walk(ast.parse(f.read_text())):
+            if not isinstance(fn, (ast.FunctionDef, ast.AsyncFunctionDef)):
+                continue
+            names = set()
+            for n in ast.walk(fn):
+                if isinstance(n, ast.Assign) and setish(n.value, names):
+                    names |= {x.id for x in n.targets if isinstance(x, ast.Name)}
+                if isinstance(n, ast.AnnAssign) and n.value is not None and isinstance(n.target, ast.Name) and setish(n.value, names):
+                    names.add(n.target.id)
+            for n in ast.walk(fn):
+                its = [n.iter] if isinstance(n, ast.For) else [g.iter for g in n.generators] if isinstance(n, (ast.ListComp, ast.GeneratorExp, ast.DictComp)) else []
+                for it in its:
+                    if setish(it, names) and (rel, fn.name, ast.unparse(it)) not in harmless:
+                        sites.append((f"{rel}:{fn.name}:{n.lineno}", ast.unparse(it)[:60].replace('"', "'"), False))
     return {"sites": sites, "caches": sorted(caches), "dir_sorted": dir_sorted}
 
 
